@@ -79,6 +79,23 @@ type jobCtx struct {
 
 func (j *jobCtx) ev(kind string, n int) { j.res.events[kind] += int64(n) }
 
+// wantSample picks one written-out case per stream (first job of the stream at the smallest limit).
+func (j *jobCtx) wantSample(o *caseOutcome, line []byte) bool {
+	switch j.job.stream {
+	case "pri":
+		return j.job.index == 0 && o.ref.ok && o.ref.pri == 163
+	case "cut":
+		return j.job.index == 5 && o.straddle // message length limit+1
+	case "prefixes":
+		return o.ref.reason == "no-message-part"
+	case "tokens":
+		return j.job.index == 0 && o.ref.ok && len(line) <= 35
+	case "mutations":
+		return j.job.index == 0 && !o.ref.ok && len(line) >= 32 && o.ref.reason != "no-message-part"
+	}
+	return false
+}
+
 func sizeBucket(d, near int) (string, bool) {
 	if d >= -near && d <= near {
 		return fmt.Sprintf("%+d", d), true
@@ -170,9 +187,10 @@ func (j *jobCtx) emit(line []byte, genSig string) {
 	if o.allowedCl {
 		j.ev("allowed_record_overflow_tail_clean", 1)
 	}
-	if len(j.res.samples) < 2 && len(line) < 300 && (o.overlong || !ref.ok) && j.job.index == 0 {
-		j.res.samples = append(j.res.samples, map[string]any{"stream": j.job.stream, "limit": e.limit, "line_hex": hex.EncodeToString(line),
-			"class": lineClass(ref), "returned": o.returned, "overlong": o.overlong})
+	if len(j.res.samples) == 0 && len(line) < 400 && e.limit == 64 && j.wantSample(&o, line) {
+		j.res.samples = append(j.res.samples, map[string]any{"stream": j.job.stream, "InputLogMaxMessageBytes": e.limit, "line_hex": hex.EncodeToString(line),
+			"line_quoted": strconv.QuoteToASCII(string(line)), "reference_class": lineClass(ref), "record_returned": o.returned,
+			"message_overlong": o.overlong, "cut_straddles_rune": o.straddle, "signature": sig})
 	}
 	for _, f := range o.findings {
 		j.report(f, line)
